@@ -188,4 +188,15 @@ theorem C04_types_one_pass :
     (∀ i ∈ (passesOf "type").dropLast, ∀ j ∈ (passesOf "objecttype"), i < j) ∧
     (passesOf "type").getLast? = some (templateLoops.length - 1) := by decide
 
+/-- the pass that defines the managed objects (the one that also defines OBJECT-IDENTITY nodes and is not the export list) -/
+def objectPasses : List Nat := (passesOf "objectidentity").dropLast
+
+/-- **C04_augment_after_objects**: the statements that register an augmenting row with its base row stand in exactly one pass,
+which comes after the (one) pass that defines the managed objects - so the base row, wherever its OID sorts, is defined when
+they run.  (Before repair f9270ed they stood inside the pass over the managed objects, behind the augmenting row.) -/
+theorem C04_augment_after_objects :
+    templateAugmentPasses.length = 1 ∧ objectPasses.length = 1 ∧
+    (∀ a ∈ templateAugmentPasses, ∀ o ∈ objectPasses, o < a) ∧
+    (∀ a ∈ templateAugmentPasses, a < templateLoops.length - 1) := by decide
+
 end Pysmi.Generated.Pysnmp
